@@ -173,3 +173,30 @@ package keeper
 //@        (deact ==> !tunnelAt(Store_tunnel, tunnelID).IsActive && !has(Store_tunnel, types.ActiveTunnelIDStoreKey(tunnelID)))
 //@        && (!deact ==> tunnelAt(Store_tunnel, tunnelID).IsActive == old(tunnelAt(Store_tunnel, tunnelID)).IsActive
 //@                       && Store_tunnel[types.ActiveTunnelIDStoreKey(tunnelID)] == old(Store_tunnel)[types.ActiveTunnelIDStoreKey(tunnelID)]))
+
+// ---- C17: activation gate and creator checks -----------------------------------------------------------
+// Activation requires the total deposit to cover the minimum deposit in EVERY denom; it sets the flag and the
+// active-index entry of exactly this tunnel, and changes nothing when it refuses.
+//@ func (k Keeper) ActivateTunnel
+//@ modifies Store_tunnel
+//@ requires wfTunnel(Store_tunnel, tunnelID)
+//@ ensures err == nil <==> (old(has(Store_tunnel, types.TunnelStoreKey(tunnelID))) && ext("Coins.IsAllGTE", old(tunnelAt(Store_tunnel, tunnelID)).TotalDeposit, old(tunnelParams(Store_tunnel)).MinDeposit))
+//@ ensures err != nil ==> Store_tunnel == old(Store_tunnel)
+//@ ensures err == nil ==> Store_tunnel == store(store(old(Store_tunnel), types.ActiveTunnelIDStoreKey(tunnelID), bzmk(1)), types.TunnelStoreKey(tunnelID), enc(with(old(tunnelAt(Store_tunnel, tunnelID)), "IsActive", true)))
+
+// Only the tunnel's creator can activate it, only while it is inactive, and only with enough deposit.
+//@ func (k msgServer) Activate
+//@ modifies Store_tunnel
+//@ requires wfTunnel(Store_tunnel, msg.TunnelID)
+//@ ensures err == nil ==> old(has(Store_tunnel, types.TunnelStoreKey(msg.TunnelID))) && old(tunnelAt(Store_tunnel, msg.TunnelID)).Creator == msg.Creator && !old(tunnelAt(Store_tunnel, msg.TunnelID)).IsActive
+//@ ensures err == nil ==> ext("Coins.IsAllGTE", old(tunnelAt(Store_tunnel, msg.TunnelID)).TotalDeposit, old(tunnelParams(Store_tunnel)).MinDeposit)
+//@ ensures err == nil ==> tunnelAt(Store_tunnel, msg.TunnelID).IsActive && has(Store_tunnel, types.ActiveTunnelIDStoreKey(msg.TunnelID))
+//@ ensures err != nil ==> Store_tunnel == old(Store_tunnel)
+
+// Only the tunnel's creator can deactivate it, only while it is active.
+//@ func (k msgServer) Deactivate
+//@ modifies Store_tunnel
+//@ requires wfTunnel(Store_tunnel, msg.TunnelID)
+//@ ensures err == nil ==> old(has(Store_tunnel, types.TunnelStoreKey(msg.TunnelID))) && old(tunnelAt(Store_tunnel, msg.TunnelID)).Creator == msg.Creator && old(tunnelAt(Store_tunnel, msg.TunnelID)).IsActive
+//@ ensures err == nil ==> !tunnelAt(Store_tunnel, msg.TunnelID).IsActive && !has(Store_tunnel, types.ActiveTunnelIDStoreKey(msg.TunnelID))
+//@ ensures err != nil ==> Store_tunnel == old(Store_tunnel)
